@@ -319,7 +319,9 @@ func main() {
 	for i := 0; i < n; i++ {
 		g := &appdrv.Gen{U: u, R: run.RNG.Fork(), Weird: i%3 == 0}
 		var h appdrv.History
-		if i%4 == 3 {
+		if i%5 == 4 {
+			h, _, _ = g.DKGHistory(5+run.RNG.Intn(8), 8)
+		} else if i%4 == 3 {
 			h, _, _ = g.TransitionHistory(4+run.RNG.Intn(8), 8)
 		} else {
 			h, _, _ = g.RandomHistory(4+run.RNG.Intn(8), 8)
